@@ -17,6 +17,8 @@ ReqGen(reg, be, a, o) ==
   LET first == RegLookup(reg, a.regKey) IN {
   <<"C15.tbs_is_function_of_inputs", a.regKey \in DOMAIN reg /\ first.be = be => o.tbs = first.tbs>>,
   <<"C15.deterministic_scheme_full_output_eq", a.regKey \in DOMAIN reg /\ first.be = be /\ a.deterministicSig => o.full = first.full>>,
+  (* the complete output carries the signature of the key the call was given, whatever was signed before *)
+  <<"C15.signature_is_by_the_given_key", o.sigOk \in {"ok", "na"}>>,
   <<"C15.params_unchanged", o.paramsUnchanged>>,
   <<"C15.shared_key_and_issuer_unchanged", o.sharedUnchanged>>,
   <<"C16.back_ends_agree_on_tbs", a.regKey \in DOMAIN reg /\ first.be # be => o.tbs = first.tbs>>
